@@ -265,6 +265,8 @@ def call_method(ex, base, attr, args, kw, p, node):
             return [(p, ite(found, base.vals.at(w), default))]
         if attr == "items":
             ks, vs = base.keys, base.vals
+            # all pairs in insertion order -- provided the keys are pairwise distinct (equal keys would collapse)
+            ex.side.append((f"dict-keys-distinct@{ex.module.name}:{getattr(node, 'lineno', 0)}", list(p.cond), distinct_list(ks)))
             return [(p, Lst(n=ks.length(), at=lambda i: Tup([ks.at(i), vs.at(i)])))]
         if attr == "keys":
             return [(p, base.keys)]
@@ -633,6 +635,9 @@ def b_dict(ex, p, args, kw, node):
         return [(p, Dct([(Str(k), v) for k, v in kw.items()]))]
     if isinstance(args[0], Dct):
         return [(p, Dct(args[0].pairs + [(Str(k), v) for k, v in kw.items()]))]
+    if isinstance(args[0], Obj) and _is_model(ex, args[0].cls):
+        names = [f["name"] for f in ex.repo.class_fields(args[0].cls)]
+        return [(p, Dct([(Str(k), args[0].fields[k]) for k in names if k in args[0].fields]))]
     if isinstance(args[0], Obj) and ("splat:" + args[0].cls) in ex.handlers:
         d = ex.handlers["splat:" + args[0].cls](ex, p, args[0])
         return [(p, Dct([(Str(k), v) for k, v in d.items()]))]
